@@ -9,6 +9,7 @@
 (declare-fun R.unpackPtr (RV) RV)
 (declare-fun R.unpackPtrValue (RV) RV)
 (declare-fun R.unpackPtrType (RT) RT)
+(declare-fun R.derefMapPtr (RV) RV)
 (declare-fun R.typeName (RT) Str)
 (declare-fun R.rootElemName (Str) Str)
 (declare-fun R.lowerName (Str) Str)
